@@ -105,6 +105,31 @@ fn wrappers(ty: &str, form: &str, input: &str) -> Value {
         };
         let arr = json!(b);
         let bytes_of = |v: Value| -> Value { v };
+        // the same byte sequence followed by an element that is not a u8: must be refused
+        // (`visit_seq` of serialization.rs stops at the first element it cannot read)
+        {
+            let mut a2: Vec<Value> = b.iter().map(|x| json!(x)).collect();
+            a2.push(json!(300));
+            let doc = Value::Array(a2);
+            macro_rules! tail {
+                ($T:ty) => {{
+                    let d2 = doc.clone();
+                    m.insert("invalid_tail:serde_json".into(), st(guard(|| serde_json::from_value::<$T>(d2).map(|x| jv(&x)))));
+                    if let Ok(bb) = rmp_serde::to_vec(&doc) {
+                        m.insert("invalid_tail:msgpack".into(), st(guard(|| rmp_serde::from_slice::<$T>(&bb).map(|x| jv(&x)))));
+                    }
+                }};
+            }
+            match ty {
+                "BigNumber" => tail!(BigNumber),
+                "GroupOrderElement" => tail!(vf::GroupOrderElement),
+                "PointG1" => tail!(vf::PointG1),
+                "PointG2" => tail!(vf::PointG2),
+                "PointG2Inf" => tail!(vf::PointG2Inf),
+                "Pair" => tail!(vf::Pair),
+                _ => {}
+            }
+        }
         match ty {
             "BigNumber" => {
                 if cfg!(feature = "ossl") {
